@@ -91,6 +91,11 @@ def one_case(rep, scn, k, kp, heights, tm):
     # ---------------- numeric clauses
     if kp is None:
         return tr
+    if scn.get("rebound") and float(maxd[kp - 1]) > 0:
+        # the way UnsupervisedOPF._best_minimum_cut uses the subgraph: arcs once for max_k, then for every candidate k
+        # the density bound is set to the k-th per-rank maximum before calculate_pdf(k) - the constant must follow it
+        sg.density = float(maxd[kp - 1])
+        bound = float(sg.density)
     try:
         sg.calculate_pdf(kp, *args)
     except Exception as ex:
@@ -208,7 +213,7 @@ def scenarios(rep, tier, seed):
                 D2[I[a], I[b]] = Wm[a][b]
         k = rng.randrange(1, 6)
         kp = rng.randrange(1, min(k, n - 1) + 1)
-        out.append(({"mode": "pre", "metric": "euclidean", "Z": [[float(i)] for i in range(n)], "D": D2.tolist(), "I": I}, k, kp))
+        out.append(({"mode": "pre", "metric": "euclidean", "Z": [[float(i)] for i in range(n)], "D": D2.tolist(), "I": I, "rebound": len(out) % 4 == 2}, k, kp))
     rep.cov["tlc_scenarios_replayed"] = len(out)
     nf = 2500 if thorough else 300
     mets = ["euclidean", "log_squared_euclidean", "manhattan", "chebyshev", "squared_euclidean", "gower", "lorentzian", "average_euclidean"]
@@ -236,7 +241,7 @@ def scenarios(rep, tier, seed):
         met = rng.choice(mets)
         if kind == 2:
             met = "euclidean"
-        out.append(({"mode": "metric", "metric": met, "Z": Z.tolist()}, k, kp))
+        out.append(({"mode": "metric", "metric": met, "Z": Z.tolist(), "rebound": i % 3 == 1}, k, kp))
     return out
 
 
@@ -284,7 +289,7 @@ def run(tier, seed):
     if traces:
         rep.sample({"scenario": {kk: (v if kk not in ("Z", "D") else "...") for kk, v in traces[-1][0].items()}, "k": traces[-1][1], "arcs_trace": traces[-1][2]})
     judge_arcs(rep, traces)
-    rep.cov["rule"] = "fresh KNNSubgraph per case; all symmetric rank matrices n<=4 (pre-computed, permuted index arrays) and float data (lattice, duplicates, tiny distances, densest-first/last orderings); k 1..6 incl. k>n-1; heights {-1,0,.5,1,999,1000,2000}"
+    rep.cov["rule"] = "fresh KNNSubgraph per case; all symmetric rank matrices n<=4 (pre-computed, permuted index arrays) and float data (lattice, duplicates, tiny distances, densest-first/last orderings); k 1..6 incl. k>n-1; a third of the cases reset the density bound to the kp-th per-rank maximum between create_arcs and calculate_pdf (the k-range use of UnsupervisedOPF); heights {-1,0,.5,1,999,1000,2000}"
     rep.assumptions = ["TLC for the discrete clauses", "numeric clauses: formula held in KnnTerms.tla, evaluated in float64 by lib/terms.py and compared under rtol 1e-9 x conditioning scale (sampling over the reals, not model checking)", "create_arcs is judged on fresh subgraphs (the density bound is not reset between calls on a reused subgraph)"]
     return rep.finish()
 
